@@ -2,7 +2,7 @@ import VivModel.Model.Proto
 import VivModel.Model.Components
 /-! Line-protocol driver for component registration / setup / configuration layering (C20).
 
-  user <what> <path> <val>        what ∈ {model_specification, configuration}; layer from Viv.Gen.configUpdates
+  user <what> <path> <val>        what ∈ {model_specification, configuration, user_config_path}; layer from Viv.Gen.configUpdates
   mgr <name> <defs>               one iteration of add_managers
   add <k> <nodes>                 SimulationContext.add_components: a forest of k trees, nodes in
                                   pre-order as name:arity:defs
@@ -15,7 +15,7 @@ import VivModel.Model.Components
 open Viv Viv.Proto Viv.Components
 
 def errName : Err → String
-  | .dupName => "dupname" | .dupValue => "dupvalue" | .frozen => "frozen" | .noLayer => "nolayer"
+  | .dupName => "dupname" | .dupValue => "dupvalue" | .frozen => "frozen" | .noLayer => "nolayer" | .structure => "structure"
   | .constraint => "constraint" | .transition => "transition"
 
 def parseDefs (s : String) : Option Defaults :=
